@@ -187,7 +187,7 @@ func errString(err error) string {
 
 // implScan runs the real ScanSnapshot (path guessing off) on a scripted reader.
 func implScan(op *ScanOp) (res ScanRes) {
-	if k := atomic.AddInt64(&scanCalls, 1); k%8 == 0 {
+	if k := atomic.AddInt64(&scanCalls, 1); k%8 == 0 || op.History {
 		historyPrelude(k / 8)
 		op.History = true
 	}
@@ -200,6 +200,11 @@ func implScan(op *ScanOp) (res ScanRes) {
 		}
 	}()
 	s, suffix, err := stack.ScanSnapshot(rd, &fwd, &stack.Opts{NameArguments: op.Names})
+	if op.History {
+		// what a call returned belongs to the caller: another scan in between (any stream, any
+		// goroutine) must not change the remainder or the snapshot that were handed out
+		historyPrelude(atomic.LoadInt64(&scanCalls)/8 + 1)
+	}
 	res.Fwd = hb(fwd.String())
 	res.Rest = hb(string(suffix) + string(data[rd.pos:]))
 	res.SuffixNil = suffix == nil
